@@ -194,6 +194,8 @@ structure HdrOk (g g' : Ghost) (out : Option HdrOut) : Prop where
   pres : Pres g g'
   nh : g.nh ≤ g'.nh
   res : ∀ o, out = some o → g'.nh = o.nh ∧ Holds g' o.man.h (o.man.off + o.man.len) ∧ Holds g' o.mac.h (o.mac.off + o.mac.len)
+  /-- the surplus bytes sit in an array of their own (the handle after the buffer's), still held -/
+  sur : ∀ o, out = some o → o.extra ≠ 0 → Holds g' (g.nh + 1) o.extra
 
 theorem readHeader_fixed_ok (B : Nat) (reads : List (List Byte)) (g : Ghost) (ok : GhostOk g) :
     ∃ g', gRun g (readHeaderProg retFixed B g.nh reads).1 = some g' ∧
@@ -207,7 +209,7 @@ theorem readHeader_fixed_ok (B : Nat) (reads : List (List Byte)) (g : Ghost) (ok
   have oldne : ∀ h w, Holds g h w → h ≠ g.nh := fun h w H => Nat.ne_of_lt (ok.lt h H.1)
   -- the error exits: get, loop, put
   have errExit : ∃ g', gRun g (.get :: ((rhLoop B g.nh 0 reads Scan.start).1 ++ [.put g.nh])) = some g' ∧ HdrOk g g' none := by
-    refine ⟨_, bracket_ok hg2 hbl, ?_, ?_, ?_, fun o e => by cases e⟩
+    refine ⟨_, bracket_ok hg2 hbl, ?_, ?_, ?_, (fun o e => by cases e), (fun o e _ => by cases e)⟩
     · exact gshape_ok (GShape.put g.nh hbl) ok2
     · exact fun h w H => pres_erase h w (oldne h w H) (e2.holds (hp0 h w H))
     · simp only [e2.nh]; omega
@@ -229,14 +231,14 @@ theorem readHeader_fixed_ok (B : Nat) (reads : List (List Byte)) (g : Ghost) (ok
             else (([] : List Instr), g.nh + 1)).1 = some g3 ∧
             g3.nh = (if sc.lastNl < n then
               ([.alloc (n - sc.lastNl), .copy ⟨g.nh + 1, 0, n - sc.lastNl⟩ ⟨g.nh, sc.lastNl, n - sc.lastNl⟩], g.nh + 2)
-            else (([] : List Instr), g.nh + 1)).2 ∧ Pres g2 g3 := by
+            else (([] : List Instr), g.nh + 1)).2 ∧ Pres g2 g3 ∧ (n - sc.lastNl ≠ 0 → Holds g3 (g.nh + 1) (n - sc.lastNl)) := by
           have hnh2 : g2.nh = g.nh + 1 := e2.nh
           split
-          · obtain ⟨g3, h3, n3, _, p3⟩ := allocCopy_ok ok2 g.nh sc.lastNl (n - sc.lastNl) (Hb.mono (by omega))
-            rw [hnh2] at h3 n3
-            exact ⟨g3, h3, n3, p3⟩
-          · exact ⟨g2, rfl, hnh2, fun _ _ H => H⟩
-        obtain ⟨g3, hg3, hn3, p3⟩ := exOk
+          · obtain ⟨g3, h3, n3, H3, p3⟩ := allocCopy_ok ok2 g.nh sc.lastNl (n - sc.lastNl) (Hb.mono (by omega))
+            rw [hnh2] at h3 n3 H3
+            exact ⟨g3, h3, n3, p3, fun _ => H3⟩
+          · exact ⟨g2, rfl, hnh2, fun _ _ H => H, fun h => absurd (by omega) h⟩
+        obtain ⟨g3, hg3, hn3, p3, Hsur3⟩ := exOk
         have hex2 : g.nh + 1 ≤ (if sc.lastNl < n then
               ([.alloc (n - sc.lastNl), .copy ⟨g.nh + 1, 0, n - sc.lastNl⟩ ⟨g.nh, sc.lastNl, n - sc.lastNl⟩], g.nh + 2)
             else (([] : List Instr), g.nh + 1)).2 := by split <;> simp
@@ -261,7 +263,7 @@ theorem readHeader_fixed_ok (B : Nat) (reads : List (List Byte)) (g : Ghost) (ok
         refine ⟨{ g5 with live := g5.live.erase g.nh }, ?_, ?_⟩
         · simp only [retSlice, retFixed]
           exact bracket_ok hmid hbl5
-        · refine ⟨gshape_ok (GShape.put g.nh hbl5) ok5, ?_, ?_, ?_⟩
+        · refine ⟨gshape_ok (GShape.put g.nh hbl5) ok5, ?_, ?_, ?_, ?_⟩
           · exact fun h w H => pres_erase h w (oldne h w H) (p5 _ _ (p4 _ _ (p3 _ _ (e2.holds (hp0 h w H)))))
           · simp only [hn5]; omega
           · intro o ho
@@ -271,6 +273,11 @@ theorem readHeader_fixed_ok (B : Nat) (reads : List (List Byte)) (g : Ghost) (ok
             refine ⟨hn5, ?_, ?_⟩
             · exact pres_erase _ _ (by omega) (by simpa using p5 _ _ Hm4)
             · exact pres_erase _ _ (by omega) (by simpa using Hc5)
+          · intro o ho hex
+            simp only [retSlice, retFixed, Option.some.injEq] at ho
+            subst ho
+            simp only at hex ⊢
+            exact pres_erase _ _ (by omega) (p5 _ _ (p4 _ _ (Hsur3 hex)))
     · exact errExit
 
 /-! ### `processSegments` -/
@@ -382,6 +389,80 @@ theorem pipeline_fixed_wf (B : Nat) (reads : List (List Byte)) (body plain : Lis
   have : g1.nh = 1 := by rw [hnh]; rfl
   rw [this] at h2
   exact wfFrom_of_gRun (gRun_append_some h1 h2)
+
+/-! ### the reader pushed back by `readHeader`, read by the goroutine after `Decrypt` returned -/
+
+/-- `processSegmentsProgS`: `pre` (reads through slices the thread holds) runs right after the Get -/
+theorem processSegmentsS_ok (enc : Bool) (S : Nat) (data : List Byte) (pre : List Instr) (g : Ghost) (ok : GhostOk g)
+    (hpre : ∀ g1, Pres g g1 → gRun g1 pre = some g1) :
+    ∃ g', gRun g (processSegmentsProgS enc g.nh S pre data) = some g' ∧ GhostOk g' ∧ Pres g g' ∧ g'.nh = g.nh + 1 := by
+  obtain ⟨hp0, hn0⟩ := acquire_pres ok
+  have ok1 : GhostOk ⟨g.nh + 1, g.nh :: g.live, upd g.wr g.nh 0⟩ := gshape_ok (GShape.get) ok
+  have h1 := hpre _ hp0
+  obtain ⟨g2, hg2, e2⟩ := psLoop_ok enc g.nh S (data.length + 1) none data _ hn0.1
+  have hbl : g.nh ∈ g2.live := by rw [e2.live]; exact List.mem_cons_self
+  have hmid := gRun_append_some h1 hg2
+  refine ⟨_, bracket_ok hmid hbl, gshape_ok (GShape.put g.nh hbl) (gRun_ok ok1 hmid), ?_, by simp only [e2.nh]⟩
+  exact fun h w H => pres_erase h w (Nat.ne_of_lt (ok.lt h H.1)) (e2.holds (hp0 h w H))
+
+theorem decryptS_fixed_ok (B : Nat) (reads : List (List Byte)) (body : List Byte) (g : Ghost) (ok : GhostOk g) :
+    ∃ g', gRun g (decryptProgS .copy retFixed B g.nh reads body) = some g' := by
+  obtain ⟨g1, hg1, H⟩ := readHeader_fixed_ok B reads g ok
+  unfold decryptProgS
+  dsimp only
+  split
+  · exact ⟨g1, hg1⟩
+  · rename_i o ho
+    obtain ⟨hnh, Hm, Hc⟩ := H.res o ho
+    have um : gstep g1 (.use o.man) = some g1 := gstep_use Hm
+    have uc : gstep g1 (.use o.mac) = some g1 := gstep_use Hc
+    have hy : gstep g1 .yield = some g1 := rfl
+    have hpre : ∀ g2, Pres g1 g2 →
+        gRun g2 (if o.extra = 0 then [] else [Instr.use (surplusSl .copy g.nh o)]) = some g2 := by
+      intro g2 P
+      split
+      · rfl
+      · rename_i hex
+        have Hs : Holds g2 (g.nh + 1) o.extra := P _ _ (H.sur o ho hex)
+        have us : gstep g2 (.use (surplusSl .copy g.nh o)) = some g2 := gstep_use (by simpa [surplusSl] using Hs)
+        rw [gRun_cons us]; rfl
+    obtain ⟨g2, hg2, _⟩ := processSegmentsS_ok false (segmentSize + segmentOverhead) body _ g1 H.ok hpre
+    rw [hnh] at hg2
+    refine ⟨g2, gRun_append_some (gRun_append_some hg1 ?_) hg2⟩
+    rw [gRun_cons hy, gRun_cons um, gRun_cons hy, gRun_cons um, gRun_cons uc, gRun_cons hy]
+    rfl
+
+theorem decryptS_fixed_wf (B : Nat) (reads : List (List Byte)) (body : List Byte) :
+    wf (decryptProgS .copy retFixed B 0 reads body) = true := by
+  obtain ⟨g', h⟩ := decryptS_fixed_ok B reads body Ghost.init ghostOk_init
+  exact wfFrom_of_gRun h
+
+theorem pipelineS_fixed_wf (B : Nat) (reads : List (List Byte)) (body plain : List Byte) :
+    wf (encryptProg 0 plain ++ decryptProgS .copy retFixed B 1 reads body) = true := by
+  obtain ⟨g1, h1, ok1, _, hnh⟩ := processSegments_ok true segmentSize plain Ghost.init ghostOk_init
+  obtain ⟨g2, h2⟩ := decryptS_fixed_ok B reads body g1 ok1
+  have : g1.nh = 1 := by rw [hnh]; rfl
+  rw [this] at h2
+  exact wfFrom_of_gRun (gRun_append_some h1 h2)
+
+/-- in a program that keeps the discipline, whatever follows a `put h` — anywhere in it — does not
+mention `h` -/
+theorem nothing_after_put {p pre rest : List Instr} {h : Nat} (hw : wf p = true) (hp : p = pre ++ .put h :: rest) :
+    ∀ i ∈ rest, h ∉ i.handles := by
+  subst hp
+  unfold wf at hw
+  rw [wfFrom_append] at hw
+  cases hg : gRun Ghost.init pre with
+  | none => rw [hg] at hw; cases hw
+  | some g =>
+    rw [hg] at hw
+    have ok : GhostOk g := gRun_ok ghostOk_init hg
+    obtain ⟨g', hg', hw'⟩ := wfFrom_cons hw
+    have hs := gstep_shape hg'
+    cases hs with
+    | put _ hm =>
+      exact no_mention_once_dropped (gshape_ok (GShape.put h hm) ok) (ok.lt h hm)
+        (fun hm' => (ok.nodup.mem_erase_iff.mp hm').1 rfl) rest hw'
 
 /-! ### `ByteSlicePool` callers -/
 
